@@ -605,6 +605,10 @@ func (g *gen) doLoopHead(ci *cfgInfo, h *ssa.BasicBlock, conds []string, preds [
 		t := g.freshOfType(phi.Type(), mangle(phi.Name()))
 		g.vals[phi] = t
 		phiVals[phi] = t
+		if phi.Comment == "rangeindex" {
+			// the hidden index of a range loop starts at -1 and is only ever incremented below the length
+			g.assume(and(g.idxLe(g.idxLit(-1), t.S), g.idxLe(t.S, g.idxMaxLen())))
+		}
 	}
 	// assume invariants
 	if spec != nil {
@@ -654,12 +658,17 @@ func (g *gen) loopMods(ci *cfgInfo, h *ssa.BasicBlock) (map[string]bool, bool) {
 		for _, in := range b.Instrs {
 			switch x := in.(type) {
 			case *ssa.Store:
+				// a store into a non-escaping local that is allocated afresh in every iteration carries
+				// nothing from one iteration to the next: it does not change the state seen at the head
+				if a := rootAlloc(x.Addr); a != nil && g.stable[a] && ci.body[h][a.Block()] {
+					continue
+				}
 				for _, c := range g.storeComps(x) {
 					mods[c] = true
 				}
 			case *ssa.Alloc, *ssa.MakeSlice, *ssa.MakeClosure, *ssa.MakeMap:
 				mods["nalloc"] = true
-				if a, ok := x.(*ssa.Alloc); ok {
+				if a, ok := x.(*ssa.Alloc); ok && !g.stable[a] {
 					// zero-initialisation writes
 					for _, c := range g.compsOfType(a.Type().Underlying().(*types.Pointer).Elem()) {
 						mods[c] = true
